@@ -9,4 +9,4 @@ Extraction "model.ml"
   exact_lt_if exact_le_if exact_lt_fi exact_le_fi exact_eq_if
   lua_for_prefix nelua_prefix
   climb nelua_table lua_table
-  lua_run nelua_run mk_fdef mk_w f_se.
+  lua_run nelua_run mk_fdef mk_w f_se ceval comp.
